@@ -13,9 +13,13 @@ Report(name, ok) == IF ok THEN TRUE ELSE PrintT(<<"T1", l, name>>)
 Res(e) == <<e.res, ToSet(e.model)>>
 (* the instance of a volume call: x1 and (x_i \/ ~x_{i+1}) over 6 variables: every model has x1 true *)
 IsTrunc(e) == Len(e.mode) > 6 /\ SubSeq(e.mode, 1, 6) = "trunc:"
+(* child kinds of ExtSat.tla: pad = ReadAllThenWrite, earlypad = WriteFirstThenRead, interleave = WriteWhileReading,          *)
+(* noread = ExitWithoutReading (no verdict printed: the call must return, and not with a result); inkb = KiB written to stdin *)
+IsNoRead(e) == Len(e.mode) > 7 /\ SubSeq(e.mode, 1, 7) = "noread:"
 JudgeVolume(e) ==
   /\ Report("C16:call_returns", e.finished)
-  /\ (e.finished /\ ~IsTrunc(e)) => Report("C16:reply_kept", e.res = "sat" /\ 1 \in ToSet(e.model) /\ Cardinality(ToSet(e.model)) = 6)
+  /\ (e.finished /\ IsNoRead(e)) => Report("C16:no_verdict_is_not_a_result", e.res \in {"unknown", "abort"})
+  /\ (e.finished /\ ~IsTrunc(e) /\ ~IsNoRead(e)) => Report("C16:reply_kept", e.res = "sat" /\ 1 \in ToSet(e.model) /\ Cardinality(ToSet(e.model)) = 6)
   \* a model cut after K literals (no terminating 0), wherever the cut falls, is not a result (also C17)
   /\ (e.finished /\ IsTrunc(e)) => /\ Report("C16:truncated_model_is_not_a_result", e.res \in {"unknown", "abort"})
                                    /\ Report("C17:truncated_model_is_not_a_result", e.res \in {"unknown", "abort"})
